@@ -1426,7 +1426,10 @@ type av1PktRes struct {
 	frames        [][]byte
 }
 
-func av1PktCall(pkt *codecs.AV1Packet, asm *frame.AV1, buf []byte) (r av1PktRes) {
+// av1PktCall: Unmarshal, then ReadFrames on the packet — after a successful Unmarshal, and, if `always`,
+// also after Unmarshal refused the payload (the packet then holds whatever the refused call stored:
+// C09 says the calls never panic "however they are interleaved").
+func av1PktCall(pkt *codecs.AV1Packet, asm *frame.AV1, buf []byte, always bool) (r av1PktRes) {
 	var out []byte
 	var err error
 	r.panicked = try(func() { out, err = pkt.Unmarshal(buf) })
@@ -1434,7 +1437,7 @@ func av1PktCall(pkt *codecs.AV1Packet, asm *frame.AV1, buf []byte) (r av1PktRes)
 	r.out = cloneBytes(out)
 	r.z, r.y, r.n, r.w = pkt.Z, pkt.Y, pkt.N, pkt.W
 	r.elems = cloneFrags(pkt.OBUElements)
-	if !r.panicked && !r.err {
+	if !r.panicked && (!r.err || always) {
 		var fr [][]byte
 		r.fpanic = try(func() { fr, _ = asm.ReadFrames(pkt) })
 		r.frames = cloneFrags(fr)
@@ -1442,15 +1445,24 @@ func av1PktCall(pkt *codecs.AV1Packet, asm *frame.AV1, buf []byte) (r av1PktRes)
 	return r
 }
 
-func av1PktHist(c *Case, reuse bool, payloads [][]byte) {
+// after: 0 = ReadFrames only after a successful Unmarshal, 1 = after every Unmarshal that returned,
+// 2 = a coin per call.
+func av1PktHist(c *Case, reuse bool, after int, payloads [][]byte) {
+	always := make([]bool, len(payloads))
+	for i := range always {
+		always[i] = after == 1 || (after == 2 && c.R.Bool())
+	}
+	if after != 0 {
+		c.Tag("ReadFrames-after-refused-Unmarshal")
+	}
 	c.I.Bool(reuse).Nat(len(payloads))
-	for _, p := range payloads {
-		c.I.OBytes(p)
+	for i, p := range payloads {
+		c.I.OBytes(p).Bool(always[i])
 	}
 	pkt, tpkt := &codecs.AV1Packet{}, &codecs.AV1Packet{}
 	asm, tasm := &frame.AV1{}, &frame.AV1{}
 	c.O.Nat(len(payloads))
-	for _, p := range payloads {
+	for i, p := range payloads {
 		if !reuse {
 			pkt, tpkt = &codecs.AV1Packet{}, &codecs.AV1Packet{}
 		}
@@ -1458,8 +1470,8 @@ func av1PktHist(c *Case, reuse bool, payloads [][]byte) {
 		if p != nil {
 			buf = cloneBytes(p)
 		}
-		r := av1PktCall(pkt, asm, buf)
-		tw := av1PktCall(tpkt, tasm, cloneBytes(p))
+		r := av1PktCall(pkt, asm, buf, always[i])
+		tw := av1PktCall(tpkt, tasm, cloneBytes(p), always[i])
 		if !reuse {
 			// AV1Packet.OBUElements are views into the packet by design; the assembler must own
 			// what it keeps: overwrite the packet once this call's outputs have been recorded
@@ -1505,18 +1517,18 @@ func genAV1C09Pkt(x *Ctx) {
 	}
 	x.Case(func(c *Case) {
 		c.Tag("literal")
-		av1PktHist(c, false, [][]byte{{0x50, 0x30, 0x01, 0x02, 0x03}, {0x90, 0x04, 0x05}})
+		av1PktHist(c, false, 0, [][]byte{{0x50, 0x30, 0x01, 0x02, 0x03}, {0x90, 0x04, 0x05}})
 	})
 	x.Case(func(c *Case) {
 		c.Tag("literal")
-		av1PktHist(c, true, [][]byte{nil, {}, {0x10}, {0x10, 0x30}, {0x20, 0x01, 0x0a, 0x30, 0x01}})
+		av1PktHist(c, true, 1, [][]byte{nil, {}, {0x10}, {0x10, 0x30}, {0x20, 0x01, 0x0a, 0x30, 0x01}})
 	})
 	for g := 0; g < 15; g++ {
 		g := g
 		x.Case(func(c *Case) {
 			c.Tag("long-leb128-length-field")
 			ps := av1LongLebPayloads(c.R)
-			av1PktHist(c, g%2 == 1, ps[g*32:(g+1)*32])
+			av1PktHist(c, g%2 == 1, g%3, ps[g*32:(g+1)*32])
 		})
 	}
 	const run = 32
@@ -1525,7 +1537,8 @@ func genAV1C09Pkt(x *Ctx) {
 		if j > len(all) {
 			j = len(all)
 		}
-		x.Case(func(c *Case) { c.Tag("exhaustive<=2"); av1PktHist(c, false, all[i:j]) })
+		x.Case(func(c *Case) { c.Tag("exhaustive<=2"); av1PktHist(c, false, 0, all[i:j]) })
+		x.Case(func(c *Case) { c.Tag("exhaustive<=2"); av1PktHist(c, false, 1, all[i:j]) })
 	}
 	if x.Thorough() {
 		for a := 0; a < 256; a++ {
@@ -1536,7 +1549,7 @@ func genAV1C09Pkt(x *Ctx) {
 						ps[d] = []byte{byte(a), byte(b), byte(d)}
 					}
 					c.Tag("exhaustive=3")
-					av1PktHist(c, false, ps)
+					av1PktHist(c, false, 2, ps)
 				})
 			}
 		}
@@ -1549,8 +1562,33 @@ func genAV1C09Pkt(x *Ctx) {
 				ps = append(ps, []byte{0x50, 0x30, 0x01, 0x02}, []byte{byte(a), byte(b)})
 			}
 			c.Tag("live-buffer+2")
-			av1PktHist(c, false, ps)
+			av1PktHist(c, false, 2, ps)
 		})
+	}
+	// every aggregation header byte in front of bodies AV1Packet.Unmarshal refuses for each of its
+	// reasons (element longer than the packet, unterminated LEB128, one-byte payload, Z with N) and of
+	// bodies it accepts, ReadFrames called after every one of them; between the refusals a fragment is
+	// left with the assembler (Y = 1) and a continuation (Z = 1) arrives.  Fresh AV1Packet per payload
+	// and one reused AV1Packet.
+	for _, reuse := range []bool{false, true} {
+		for h0 := 0; h0 < 256; h0 += 8 {
+			x.Case(func(c *Case) {
+				var ps [][]byte
+				for h := h0; h < h0+8; h++ {
+					for _, body := range [][]byte{{0x05, 0x01}, {0xff}, {0x80, 0x80}, {}, {0x00}, {0x01, 0xaa}, {0x02, 0xaa, 0xbb, 0x01}} {
+						ps = append(ps, append([]byte{byte(h)}, body...))
+						switch c.R.Intn(4) {
+						case 0:
+							ps = append(ps, []byte{0x50, 0x30, 0x01, 0x02})
+						case 1:
+							ps = append(ps, []byte{0x90, 0x07})
+						}
+					}
+				}
+				c.Tag("refused-after-every-header")
+				av1PktHist(c, reuse, 1, ps)
+			})
+		}
 	}
 	// W = 0 bodies with 254..258 zero-length elements (the element counter is compared as a byte)
 	for k := 250; k <= 260; k++ {
@@ -1559,7 +1597,7 @@ func genAV1C09Pkt(x *Ctx) {
 				p := append([]byte{w}, make([]byte, k)...)
 				p = append(p, 0x01, 0xaa, 0x02, 0xbb)
 				c.Tag("many-elements")
-				av1PktHist(c, false, [][]byte{p})
+				av1PktHist(c, false, 0, [][]byte{p})
 			})
 		}
 	}
@@ -1569,17 +1607,18 @@ func genAV1C09Pkt(x *Ctx) {
 			if reuse {
 				c.Tag("reused-AV1Packet")
 			}
+			after := c.R.Intn(3)
 			if c.R.Chance(1, 4) {
 				var ps [][]byte
 				for k := c.R.Range(1, 10); k > 0; k-- {
 					ps = append(ps, av1Garbage(c.R))
 				}
 				c.Tag("garbage")
-				av1PktHist(c, reuse, ps)
+				av1PktHist(c, reuse, after, ps)
 				return
 			}
 			c.Tag("mutated-stream")
-			av1PktHist(c, reuse, av1Stream(c.R))
+			av1PktHist(c, reuse, after, av1Stream(c.R))
 		})
 	}
 }
